@@ -654,6 +654,21 @@ impl Context {
         // the IDL grammar lets a `+` follow the `-` of a double constant (`-+1.5`);
         // f64::from_str takes a single sign
         fn parse_double(text: &str) -> f64 {
+            // the exponent of a double constant is an integer constant of the IDL: any number
+            // of `-` signs, then decimal or `0x` hexadecimal digits (`1.5e--3`, `1e0x10`);
+            // f64::from_str takes one sign and decimal digits
+            if let Some((mantissa, exponent)) = text.split_once(['e', 'E']) {
+                let digits = exponent.trim_start_matches('-');
+                let signs = exponent.len() - digits.len();
+                if signs > 1 || digits.starts_with("0x") {
+                    let magnitude = match digits.strip_prefix("0x") {
+                        Some(hex) => i64::from_str_radix(hex, 16).unwrap(),
+                        None => digits.parse::<i64>().unwrap(),
+                    };
+                    let sign = if signs % 2 == 1 { "-" } else { "" };
+                    return parse_double(&format!("{mantissa}e{sign}{magnitude}"));
+                }
+            }
             match text.strip_prefix("-+") {
                 Some(magnitude) => -magnitude.parse::<f64>().unwrap(),
                 None => text.parse::<f64>().unwrap(),
